@@ -226,13 +226,13 @@ func init() {
 	explore.Register(&explore.Check{
 		ID:         "C10",
 		Level:      "model_checking",
-		ShardDepth: 3,
+		ShardDepth: 5,
 		Body:       body,
 		Rule: "positional layouts: every sequence of 0..3 scalar fields over {string, int, Unmarshaler, map[string]int} (an int field at an odd position carries base:\"8\") x trailing slice {none, []string, []int} x owner {parser, command, both (the same layout on each)} x {None, PassDoubleDash, PassAfterNonOption, both} x {tags, API} " +
 			"x every sequence of <= 4 units (<= 3 for three-field layouts, PassAfterNonOption and both-owner declarations; thorough: one more everywhere, 6 for parser-owned layouts built through the API with PassDoubleDash) over {w, 7, -3, 10, k:1, -v, -s val, --, -x, cmd, --str=q}; oracle = CLM positional queue (field values after conversion, overflow into remaining arguments); after every accepted vector the public Args() list must still be the declared one and, for layouts without a slice, a second parse of the same vector on the same parser must bind the same fields",
 		Assumptions:  []string{"conversion of the alphabet's tokens is taken from the conversion model (checked against the library by C11)"},
 		RequiredHits: []string{"compared", "three-or-more-bound", "after-terminator", "conversion-fault", "second-parse"},
 		Bound:        [2]string{"all unit sequences of length <= 4", "all unit sequences of length <= 5 (<= 6 on one declaration family)"},
-		BudgetS:      [2]int{100, 1500},
+		BudgetS:      [2]int{170, 1500},
 	})
 }
